@@ -17,6 +17,13 @@
      vsave / vrestore <systems> <v_cells> <nstd> { - | v {N | P <value>*v_cells}*systems }*nstd <buflen> <buf>*buflen
           -> "vsave ok <buf>" / "vrestore ok <values of the present matrices in order>" | "... null" | "... oob"
      dof <unknowns> <nsys> <eq count>*nsys <ncells> <leak count>*ncells  -> "dof <df>"
+     sindexloop <nsys> <len>*nsys          -> "sindexloop <i>*total"   (w_offset advanced by every system's own count)
+     sindexclosed <nsys> <len>*nsys        -> "sindexclosed <i>*total" (model variant w_offset = sindex * equations)
+     woffsets <nsys> <len>*nsys            -> "woffsets <w_offset>*nsys"
+     dofstd <unknowns> <nsys> <eq count>*nsys <ncells> { <nstd> { <given 0|1><connected 0|1> }*nstd }*ncells
+          -> "dofstd <df> <vnlt_count>*ncells"
+     merr <reinit> <F> <ncalls> { clear | invalid | set <nf id>*F (- | <tr id>*F) <fresh nf id, tr id>*F }*ncalls
+          -> "merr none" | "merr <nf id> <tr id> ..." (F pairs); ids are numbers, 0 = the value 0.0
    Reals are exact rationals "p/q", complex numbers two reals. *)
 #include "glue.ml.inc"
 let toks = ref []
@@ -170,6 +177,52 @@ let () =
                      else n_auto_index sys (nat_of_int s) (nat_of_int e) in
                    string_of_int (int_of_nat i))) lens) in
            Printf.printf "%s %s\n" op (String.concat " " out)
+         | "sindexloop" | "sindexclosed" ->
+           let nsys = int_of_string (next ()) in
+           let lens = times nsys (fun () -> int_of_string (next ())) in
+           let sys = systems lens in
+           let out = List.concat (List.mapi (fun s len ->
+               List.init len (fun e ->
+                   let i = if op = "sindexloop" then n_simple_index_loop sys (nat_of_int s) (nat_of_int e)
+                     else n_simple_index_closed sys (nat_of_int s) (nat_of_int e) in
+                   string_of_int (int_of_nat i))) lens) in
+           Printf.printf "%s %s\n" op (String.concat " " out)
+         | "woffsets" ->
+           let nsys = int_of_string (next ()) in
+           let lens = times nsys (fun () -> int_of_string (next ())) in
+           let offs = n_running_offsets O (systems lens) in
+           Printf.printf "woffsets %s\n" (String.concat " " (List.map (fun v -> string_of_int (int_of_nat v)) offs))
+         | "dofstd" ->
+           let zi () = coqz_of_z (ZZ.of_string (next ())) in
+           let unk = zi () in
+           let nsys = int_of_string (next ()) in
+           let eqs = times nsys zi in
+           let nc = int_of_string (next ()) in
+           let cells = times nc (fun () ->
+               let nstd = int_of_string (next ()) in
+               times nstd (fun () -> let t = next () in (t.[0] = '1', t.[1] = '1'))) in
+           Printf.printf "dofstd %s%s\n" (ZZ.to_string (z_of_coqz (dof_of_standards unk eqs cells)))
+             (String.concat "" (List.map (fun c -> " " ^ ZZ.to_string (z_of_coqz (leak_count c))) cells))
+         | "merr" ->
+           let reinit = b_of (next ()) in
+           let f = int_of_string (next ()) in
+           let ncalls = int_of_string (next ()) in
+           let ni () = nat_of_int (int_of_string (next ())) in
+           let h = times ncalls (fun () ->
+               match next () with
+               | "clear" -> ([], MClear)
+               | "invalid" -> ([], MInvalid)
+               | _ ->
+                 let nf = times f ni in
+                 let tr = (match !toks with
+                     | "-" :: r -> toks := r; None
+                     | _ -> Some (times f ni)) in
+                 let fresh = times f (fun () -> let a = ni () in let b = ni () in (a, b)) in
+                 (fresh, MSet (nf, tr))) in
+           (match n_merr_run reinit None h with
+            | None -> Printf.printf "merr none\n"
+            | Some v -> Printf.printf "merr%s\n"
+                          (String.concat "" (List.map (fun (a, b) -> Printf.sprintf " %d %d" (int_of_nat a) (int_of_nat b)) v)))
          | _ -> Printf.printf "unknown %s\n" op)
       end
     done
